@@ -8,7 +8,8 @@
     recycles of one ID the first handle is "alive" again and can be removed twice.
     World level (which handle goes where, that creation paths call Get once and removal paths
     Recycle once) is tied by the correspondence streams and the handle oracles of bin/check. *)
-From Ark Require Import Model.Base Model.Mask Model.Pool Proofs.PoolSpec Proofs.PoolProofs.
+From Ark Require Import Model.Base Model.Mask Model.Pool Model.World Model.Run Proofs.PoolSpec Proofs.PoolProofs.
+From Ark Require Import Proofs.WF Proofs.StorageA Proofs.StorageC.
 
 Theorem C02_handles_unique :
   forall ops, never_wrapped ops -> NoDup (g_issued (grun ops)).
@@ -40,6 +41,21 @@ Theorem C02_count_needs_no_wrap :
   exists ops, ~ (length (g_removed (grun ops)) <= length (g_issued (grun ops))).
 Proof. exact pool_len_count_false. Qed.
 
+(** World level (relation-free tier): in every state reachable by any history of the core operations,
+    a handle issued by a step (NewEntity, Unsafe.NewEntity, CopyEntity) is alive afterwards and
+    differs from every handle issued before, whether alive, removed, or removed with its ID reused. *)
+Theorem C02_world_creation_fresh : forall debug wd s n line o e,
+  Inv s n -> n + 4 < Nat.pow 2 31 -> decode_op line = Some o -> core_op o = true ->
+  (forall c, In c (op_ids o) -> c < length (w_reg s)) ->
+  w_issued (fst (step debug wd s line)) = w_issued s ++ [e] ->
+  ~ In e (w_issued s) /\ live (fst (step debug wd s line)) e = true /\ alive (fst (step debug wd s line)) e = true.
+Proof. exact creation_fresh. Qed.
+
+Theorem C02_world_invariant_reachable : forall c lines,
+  cfg_ok c -> Forall (core_line (length (sc_kinds c))) lines -> length lines + 4 < Nat.pow 2 31 ->
+  Inv (run_core c lines) (length lines).
+Proof. exact reachable_inv. Qed.
+
 (** Non-vacuity: a history with recycling in LIFO and FIFO order; its handles, liveness and count. *)
 Example C02_history :
   let ops := [PGet; PGet; PGet; PRecycle 1; PRecycle 0; PGet; PGet; PGet; PRecycle 3] in
@@ -48,9 +64,6 @@ Example C02_history :
   pool_len (g_pool (grun ops)) = 3.
 Proof. vm_compute. repeat split; reflexivity. Qed.
 
-Print Assumptions C02_handles_unique.
-Print Assumptions C02_alive_exact.
-Print Assumptions C02_removed_stays_dead.
-Print Assumptions C02_zero_entity_dead_and_ids_not_reserved.
-Print Assumptions C02_count.
-Print Assumptions C02_count_needs_no_wrap.
+(** One traversal of the dependency graph for all theorems of this file. *)
+Definition C02_all := (C02_world_creation_fresh, C02_world_invariant_reachable, C02_handles_unique, C02_alive_exact, C02_removed_stays_dead, C02_zero_entity_dead_and_ids_not_reserved, C02_count, C02_count_needs_no_wrap).
+Print Assumptions C02_all.
